@@ -30,3 +30,11 @@ Theorem C19_batch_get_is_the_individual_gets :
       batch_get V2 c reqs opts =
       (c, ok_obs (PBatchGet (map (fun tk => (fst tk, gets c (fst tk) (fst (opts_of opts (fst tk))) (snd (opts_of opts (fst tk))) (snd tk))) reqs) unprocessed) []).
 Proof. exact batch_get_is_gets. Qed.
+
+(* a BatchGetItem whose table entry breaks the expression rules, or names a table that does not exist, is rejected as a
+   whole and nothing is reported as unprocessed (fixes 2aa9a7b, 91e5142): retrying such keys could never succeed *)
+Theorem C19_batch_get_invalid_rejected :
+  forall c reqs opts e es,
+    c_failure c = None -> batch_get_errors c reqs opts = e :: es ->
+    batch_get V2 c reqs opts = (c, {| o_res := RErr e; o_pay := PAlt (e :: es); o_fired := [] |}).
+Proof. exact batch_get_invalid_rejected. Qed.
